@@ -292,6 +292,7 @@ pub fn exec(line: &str) -> String {
             }
             p_readd(k.parse().unwrap_or(1), idx.parse().unwrap_or(0), &srcs)
         }
+        ["p_display_wide", n] => p_display_wide(n.parse().unwrap_or(1000)),
         ["p_cycle", rest @ ..] => {
             let mut srcs = Vec::new();
             for h in rest {
@@ -802,6 +803,49 @@ fn p_c09(k: usize, srcs: &[String]) -> String {
         out.push_str(&sexp(&s).replace(' ', "_"));
     }
     out
+}
+
+/// Display of ONE object with `n` members of pairwise different shapes must be made of the members' own Display
+/// texts; where a member prints as another member does, the object and its twin with that member replaced are two
+/// different shapes with one Display text (C11's injectivity) — a birthday-sized case for anything keyed by a hash
+fn p_display_wide(n: usize) -> String {
+    use std::collections::BTreeMap;
+    let member = |i: usize| -> JsonShape {
+        let mut c = BTreeMap::new();
+        c.insert(format!("m{i}"), JsonShape::Number { optional: i % 2 == 1 });
+        let o = JsonShape::Object { content: c, optional: i % 3 == 0 };
+        if i % 5 == 0 { JsonShape::Array { r#type: Box::new(o), optional: false } } else { o }
+    };
+    let mut content = BTreeMap::new();
+    for i in 0..n {
+        content.insert(format!("k{i:07}"), member(i));
+    }
+    let big = JsonShape::Object { content: content.clone(), optional: false };
+    let text = big.to_string();
+    let mut pos = 0usize;
+    for (i, (k, v)) in content.iter().enumerate() {
+        let want = format!("{k}: {v}");
+        match text[pos..].find(&want) {
+            Some(off) if off <= 4 + k.len() => pos += off + want.len(),
+            _ => {
+                // which earlier member's text stands here?
+                let here: String = text[pos..].chars().take(120).collect();
+                let mut twin = content.clone();
+                for (k2, v2) in content.iter().take(i) {
+                    if here.contains(&format!("{k}: {v2}")) {
+                        twin.insert(k.clone(), v2.clone());
+                        let t2 = JsonShape::Object { content: twin.clone(), optional: false }.to_string();
+                        if t2 == text {
+                            return format!("violated: member {k} prints as member {k2} does: the object and its twin with {k} := {k2}'s shape are different shapes with one Display text");
+                        }
+                        break;
+                    }
+                }
+                return format!("violated: member {k} of a {n}-member object does not print as its own Display text; found `{here}`");
+            }
+        }
+    }
+    "ok".into()
 }
 
 /// C09 for ONE document of a (long) history: the document at `idx` is re-fed k times; same answer format as `p_c09`
